@@ -2197,6 +2197,14 @@ func (ctx Ctx) globalVarDecl(d *ast.GenDecl) []coq.Decl {
 	for _, spec := range d.Specs {
 		vs := spec.(*ast.ValueSpec)
 		ctx.dep.addName(vs.Names[0].Name)
+		// the variable becomes a definition that stands for its initialiser:
+		// every use evaluates it again, which only a constant tolerates
+		// (var p = new(uint64) would be a fresh cell at every mention)
+		for _, v := range vs.Values {
+			if tv, ok := ctx.info.Types[v]; ok && tv.Value == nil {
+				ctx.unsupported(v, "package-level variable with a non-constant initialiser")
+			}
+		}
 		specs = append(specs, ctx.constSpec(vs))
 	}
 	return specs
